@@ -41,6 +41,37 @@ type Join struct {
 	Q      int      `json:"q"` // router-to-client queue size, 0 = default
 }
 
+// Hello describes the first message of a handshake (C09).
+type Hello struct {
+	First   string   `json:"first"`   // "HELLO", another message type, "none"
+	Realm   string   `json:"realm"`   // "ok" | "missing" | "empty"
+	Roles   string   `json:"roles"`   // "ok" | "none" | "unknown" | "badtype"
+	Methods []string `json:"methods"` // authmethods; "#" = an entry that is not a string
+	Authid  string   `json:"authid"`
+	Smuggle bool     `json:"smuggle"` // identity fields smuggled through the HELLO details
+	Color   string   `json:"color"`
+	Feats   []string `json:"feats"`
+	Local   bool     `json:"local"`
+	Q       int      `json:"q"`
+}
+
+// AuthResp describes the answer to a CHALLENGE in abstract crypto: a signature
+// (or ticket) made with the key of user Key over the challenge issued to peer
+// Ch ("" = the peer's own challenge).
+type AuthResp struct {
+	Kind string `json:"kind"` // "sig" | "garbage" | "other"
+	Key  string `json:"key"`
+	Ch   string `json:"ch"`
+}
+
+// AuthCfg is the authentication configuration of a realm.
+type AuthCfg struct {
+	Anon    bool     `json:"anon"`
+	Methods []string `json:"methods"`
+	Lauth   bool     `json:"lauth"`
+	Crtmo   int      `json:"crtmo"` // ms; 0 = configuration not given (legacy default)
+}
+
 // Input is one scenario step.
 type Input struct {
 	Op   string   `json:"op"`
@@ -58,6 +89,8 @@ type Input struct {
 	O    Opts     `json:"o"`
 	Join Join     `json:"join"`
 	Hm   Mutant   `json:"hm"` // hostile step (C04)
+	Hello Hello   `json:"hello"` // handshake steps (C09)
+	Resp  AuthResp `json:"resp"`
 	// With: an input submitted concurrently with a closerouter / rmrealm step (C06)
 	With *Input `json:"with,omitempty"`
 	// Gate: hold the concurrently joining session's attach goroutine at the
@@ -133,6 +166,7 @@ type Cfg struct {
 	Late     bool `json:"late"`
 	Template bool `json:"template"`
 	Closed   bool `json:"closed"` // always false in configurations; set by the specification when the realm is closed
+	Auth     AuthCfg `json:"auth"`
 }
 
 // Rule is one authorizer rule: message type, sender class ("any", "local",
